@@ -24,6 +24,7 @@ const (
 	CatInvNode    = "inv.node"
 	CatInvCache   = "inv.cache"
 	CatInvLocks   = "inv.locks"
+	CatObserve    = "observe" // a read accessor panicked on a legal state (C01, C02)
 	CatHarness    = "harness" // a bug of the harness itself: always reported as inconclusive
 
 	CatPanicCreate   = "panic.create"   // single creation / removal of a non-target
@@ -71,6 +72,8 @@ func classify(err error) *Finding {
 	switch {
 	case strings.Contains(msg, "harness bookkeeping"):
 		cat = CatHarness
+	case strings.Contains(msg, "reading the world panicked"):
+		cat = CatObserve
 	case strings.Contains(msg, "structural invariant broken"):
 		switch {
 		case strings.Contains(msg, ": pool:"):
